@@ -214,7 +214,7 @@ impl TExec {
                     return;
                 }
                 let exp_events = apply(self);
-                ctx.check(res.events == exp_events, &["C12"], &format!("{}/wrong-events", func), || {
+                ctx.check(crate::judge::events_match(&res.events, &exp_events, &["transfer", "mint", "burn", "approve", "set_admin", "clawback"]), &["C12"], &format!("{}/wrong-events", func), || {
                     format!("{}: expected events {:?}, got {:?}", func, exp_events, res.events)
                 });
             }
